@@ -207,7 +207,7 @@ CHECKS = {
              'pop/drop on a too shallow stack raise and change nothing; push/pop/drop change the depth by +1/-1/-n. Also: '
              'overload_pred::result (overload.cc) answers fail when no overload takes the operand types, else the selected '
              'overload\'s verdict (proof, lookup modelled); ?find/?starts/?ends on strings (value-str.cc) agree with the byte-string '
-             'model for all haystacks/needles of length <= 3 (BOUNDED, std::string by a model).',
+             'model for all haystacks/needles of length <= 3 (BOUNDED, std::string by a model). Bounded: elem / relem on sequences of <= 4 values yield the elements in (reverse) order, numbered 0,1,2,..., as copies.',
         design_ref='DESIGN.md section 4 C11',
         note='SLICE: the other word implementations (sequences, integers, match, elem, add, length, radix words, shuffling), overload '
              'lookup and operand collection are not covered. Trusted: cxx2c lowering; the vector/unique_ptr model (ownership not '
